@@ -9,7 +9,7 @@ use crate::util::{guard, par_map, Kv};
 
 pub fn meta(ctx: &Ctx) -> Meta {
     Meta {
-        rule: format!("networks of depth 2..{} over count-preserving layers {{dense 4->4 (linear, ReLU), conv 1x1 / 3x3 p1, deconv 3x3 p1 on 1x2x2, feedback[dense 4]x2}} from a flat and a spatial input (flat<->spatial neighbours in both directions) x EVERY index pair a <= b x all 5 accumulations, exact small-integer data: predict vs the reference interpreter; EVERY ordered pair of connect calls on the depth-3/4 networks: pairwise distinct sources and targets must be accepted, a second connection onto a used target (or from a used source) must be rejected or both must stay visible in predict; additive accumulation: Network::backward vs the dual-number derivative of the reference function for every single connection and every accepted pair. Non-trivial = reference output has >= 2 distinct non-zero entries", if ctx.tier.thorough() { 4 } else { 3 }),
+        rule: format!("networks of depth 2..{} over count-preserving layers {{dense 4->4 (linear, ReLU), conv 1x1 / 3x3 p1, deconv 3x3 p1 on 1x2x2, feedback[dense 4]x2}} from a flat and a spatial input (flat<->spatial neighbours in both directions) x EVERY index pair a <= b x all 5 accumulations, exact small-integer data: predict vs the reference interpreter; connections spanning 5..7 layers of an 8-layer network; EVERY ordered pair of connect calls on the depth-3/4 networks: pairwise distinct sources and targets must be accepted, a second connection onto a used target (or from a used source) must be rejected or both must stay visible in predict; additive accumulation: Network::backward vs the dual-number derivative of the reference function for every single connection and every accepted pair. Non-trivial = reference output has >= 2 distinct non-zero entries", if ctx.tier.thorough() { 4 } else { 3 }),
         bound: "depth <= 4, element count 4, at most two connections".into(),
         exhaustive: true,
         assumptions: vec![
@@ -68,6 +68,9 @@ fn forward_case(net: &Net, seed: u64, case: &Kv, rep: &mut Report) -> bool {
         Ok(ok) => {
             if ok.nontrivial {
                 rep.nontrivial += 1;
+            }
+            if ok.overflow {
+                rep.count("reference_outside_f32_range_skipped", 1);
             }
             true
         }
@@ -206,6 +209,33 @@ pub fn cases(ctx: &Ctx) -> Vec<Kv> {
         nets.push(Net::new(Dims::Flat(4), vec![r, d.clone(), d.clone(), d]));
     }
     let mut out = Vec::new();
+    // beyond the small bound: connections that span 5, 6 and 7 layers of an 8-layer network, alone and in pairs
+    {
+        let d = |act: Act, bias: bool| L::Dense { n: 4, act, bias, drop: None };
+        let deep = Net::new(
+            Dims::Flat(4),
+            vec![d(Act::Linear, true), d(Act::Relu, false), d(Act::Linear, true), d(Act::Linear, false), d(Act::Relu, true), d(Act::Linear, true), d(Act::Linear, false), d(Act::Linear, true)],
+        );
+        let spans = [(0usize, 5usize), (1, 6), (2, 7), (1, 7), (0, 7), (3, 4)];
+        for &(a, b) in &spans {
+            for acc in [Acc::Add, Acc::Sub, Acc::Over] {
+                let mut m = deep.clone();
+                m.connects = vec![(a, b)];
+                m.skipacc = acc;
+                out.push(Kv::new().put("kind", "single").put("net", m.name()));
+            }
+        }
+        for &c1 in &spans {
+            for &c2 in &spans {
+                if c1.0 != c2.0 && c1.1 != c2.1 {
+                    let mut m = deep.clone();
+                    m.connects = vec![c1, c2];
+                    m.skipacc = Acc::Add;
+                    out.push(Kv::new().put("kind", "pair").put("net", m.name()));
+                }
+            }
+        }
+    }
     for net in &nets {
         let n = net.layers.len();
         let pairs: Vec<(usize, usize)> = (0..n).flat_map(|b| (0..=b).map(move |a| (a, b))).collect();
